@@ -36,6 +36,8 @@ var concDocs = []string{
 	`{"a":[3,1,2],"b":[2,1]}`,
 	`[3,1,2]`,
 	`[{"k":"b"},{"k":"a"},{"k":"c"}]`,
+	// empty containers as operands (an "empty, so reuse it" shortcut writes into the shared value)
+	`{"a":{},"b":{"x":1,"y":[2]},"c":[]}`,
 }
 
 // scenario state, rebuilt for every execution
